@@ -234,3 +234,29 @@ impl<T: Cat> Cat for Var<T> {
         self.0.same(&o.0)
     }
 }
+
+
+/// A variant of ANY content for the typed API (`unmarshal::traits::Variant`): only "accepted, and how many bytes" is
+/// observed. Used by the deep-nesting family, where the content is a tower of containers built by hand.
+#[derive(Debug)]
+pub struct AnyVar;
+impl Signature for AnyVar {
+    fn signature() -> rustbus::signature::Type {
+        rustbus::signature::Type::Container(rustbus::signature::Container::Variant)
+    }
+    fn alignment() -> usize {
+        1
+    }
+    fn sig_str(s: &mut SignatureBuffer) {
+        s.push_static("v");
+    }
+    fn has_sig(sig: &str) -> bool {
+        sig.starts_with('v')
+    }
+}
+impl<'b, 'f> Unmarshal<'b, 'f> for AnyVar {
+    fn unmarshal(ctx: &mut UnmarshalContext<'f, 'b>) -> UnmarshalResult<Self> {
+        rustbus::wire::unmarshal::traits::Variant::unmarshal(ctx)?;
+        Ok(AnyVar)
+    }
+}
